@@ -1,4 +1,5 @@
 """C05 -- serialise / parse round trip."""
+import typing as t
 import warnings
 
 import convcases
@@ -368,11 +369,82 @@ def monitor_factory(into_items):
     return monitor
 
 
+
+def custom_converter_roundtrips(out):
+    """dataclasses whose fields are written and read by a user converter with a non-identity serialised form (an int number of
+    cents written as '12.34'), attached to the field, to the class (both layouts) and at the call: the round trip must hold and the
+    serialised form must be the converter's"""
+    import re
+    import pane
+    from pane.converters import Converter
+    from pane.errors import ParseInterrupt, WrongTypeError
+
+    class Cents(Converter):
+        def expected(self, plural=False):
+            return 'amounts' if plural else 'an amount'
+
+        def try_convert(self, val):
+            if isinstance(val, str) and re.fullmatch(r'\d+\.\d\d', val):
+                return int(val.replace('.', ''))
+            raise ParseInterrupt()
+
+        def collect_errors(self, val):
+            try:
+                self.try_convert(val)
+                return None
+            except ParseInterrupt:
+                return WrongTypeError(self.expected(), val)
+
+        def into_data(self, val):
+            return f'{val // 100}.{val % 100:02d}'
+    n = 0
+    cases = []
+
+    class Inv(pane.PaneBase):
+        customer: str
+        total: int = pane.field(converter=Cents())
+        paid: bool = False
+    cases.append(('field converter', Inv, {'customer': 'ACME', 'total': '12.34'}, {'customer': 'ACME', 'total': '12.34', 'paid': False}, {}))
+
+    class InvC(pane.PaneBase, custom={int: Cents()}):
+        customer: str
+        total: int
+    cases.append(('class-level custom', InvC, {'customer': 'ACME', 'total': '0.05'}, {'customer': 'ACME', 'total': '0.05'}, {}))
+
+    class InvT(pane.PaneBase, custom={int: Cents()}, out_format='tuple', in_format=('tuple', 'struct')):
+        customer: str
+        total: int
+    cases.append(('class-level custom, tuple layout', InvT, ['ACME', '7.00'], ('ACME', '7.00'), {}))
+
+    class Line(pane.PaneBase):
+        total: int
+
+    class Outer(pane.PaneBase, custom={int: Cents()}):
+        lines: t.List[Line]
+        best: t.Optional[Line] = None
+    cases.append(('custom reaching nested classes', Outer, {'lines': [{'total': '1.00'}, {'total': '2.50'}], 'best': {'total': '2.50'}},
+                  {'lines': [{'total': '1.00'}, {'total': '2.50'}], 'best': {'total': '2.50'}}, {}))
+    cases.append(('call-level custom', Line, {'total': '3.21'}, {'total': '3.21'}, {'custom': {int: Cents()}}))
+    for label, cls, data, want_data, kw in cases:
+        n += 1
+        try:
+            x = pane.from_data(data, cls, **kw)
+            d = pane.into_data(x, cls, **kw)
+            y = pane.from_data(d, cls, **kw)
+        except Exception as e:
+            out.violation(f'C05:custom-converter-roundtrip:{type(e).__name__}', f'{label}: {cls.__name__} from {data!r}: {type(e).__name__}: {str(e)[:300]}', {'case': label})
+            continue
+        if d != want_data or y != x:
+            out.violation('C05:custom-converter-roundtrip', f'{label}: x = {x!r} serialises to {d!r} (the converter writes {want_data!r}) and reads back as {y!r}', {'case': label})
+    return n
+
+
 def run(ctx, out):
     out.rule = ('types x values accepted by them (x = from_data(v, T)); checks: into_data(x, T) is interchange data only, '
                 'from_data(into_data(x, T), T) == x with identical runtime classes, second serialisation equal up to list order; '
                 'dataclass configurations: layouts (struct/tuple in/out), class rename styles, aliases, in_names, rename, out_name, '
                 'kw-only, excluded fields (skipped when the output form is not enabled on input). Non-trivial = non-leaf type.')
+    out.evaluations += custom_converter_roundtrips(out)
     into_items = []
     cases = convprop.run(ctx, out, PROP, monitor_factory(into_items), cfg={'naming_density': 2.5, 'weights': {'class': 4.5, 'union': 1.5, 'tagged': 1.2, 'std': 1.0}},
                          extra_cases=lambda rng: convprop.cases_from_pairs(gen.subclass_union_cases(rng), rng, 'subclass-union'))
